@@ -414,7 +414,10 @@ async fn conc_schedule<TC: Tcfg>(case: &ConcCase, sc: &ConcScenario, policy: &Po
         // requests. akd's only flush path (the change poller) takes the directory's cache lock, which excludes
         // publishes and proof generations on that instance; a raw flush of the writer's shared cache in the middle
         // of its publish would violate that documented locking precondition.
-        let flushable = case.readers[i].0 != RInst::WriterClone;
+        // The polled instance has a second requester (the change-signal listener): a raw flush by this actor could then
+        // fall into the middle of the listener's request, which akd's own flush path (under the write lock) never does.
+        let polled = poll_ro.is_some() && case.readers.iter().position(|(x, _)| *x == RInst::RoCached) == Some(i);
+        let flushable = case.readers[i].0 != RInst::WriterClone && !polled;
         actors.push(Box::pin(async move {
             let mut outs = vec![];
             for op in ops {
